@@ -65,9 +65,76 @@ def run(repo: Repo, rep: Report, tier: str) -> None:
     except Undecided as ex:
         rep.undecide("models", str(ex))
     _totality(repo, rep, tier)
+    _fresh_schemas(repo, rep)
 
 
 # --------------------------------------------------------------------------- R20.1
+
+def _fresh_schemas(repo: Repo, rep: Report) -> None:
+    """R20.7: every registered schema creator returns a schema object created by this call (a JSONSchema(...) family
+    constructor, or what get_schema / another creator / an apply_* decorator returned for this call) -- never an object
+    that outlives the call (module-level constant or table entry): on_dataclass / on_named_tuple write `default` and
+    `description` onto the schemas they receive, so a shared object carries one field's default into every other
+    field, definition and later build."""
+    mi = repo.module(M_SCHEMA)
+    module_names = set()
+    for st in mi.tree.body:
+        if isinstance(st, (ast.Assign, ast.AnnAssign)):
+            for t in (st.targets if isinstance(st, ast.Assign) else [st.target]):
+                if isinstance(t, ast.Name):
+                    module_names.add(t.id)
+    n = 0
+    for fn in mi.tree.body:
+        if not (isinstance(fn, ast.FunctionDef) and (fn.name.startswith("on_") or fn.name in ("get_schema", "_get_schema_or_none"))):
+            continue
+        local_fresh = {}
+        for st in walk_no_nested(fn):
+            if isinstance(st, ast.Assign) and len(st.targets) == 1 and isinstance(st.targets[0], ast.Name):
+                local_fresh.setdefault(st.targets[0].id, []).append(st.value)
+
+        def origin(e, depth=0):
+            """'fresh' | 'none' | 'shared:<text>' | 'unknown:<text>'"""
+            if isinstance(e, ast.Constant) and e.value is None:
+                return "none"
+            if isinstance(e, ast.Call):
+                f = ast.unparse(e.func)
+                if f.endswith("Schema") or f in ("get_schema", "_get_schema_or_none", "replace", "copy", "deepcopy") or f.startswith(("on_", "apply_")) or f.endswith((".from_dict", ".copy", ".get_schema")) or f == "schema_creator":
+                    return "fresh"
+                return f"unknown:{ast.unparse(e)[:50]}"
+            if isinstance(e, ast.IfExp):
+                a, b = origin(e.body, depth), origin(e.orelse, depth)
+                return a if a.startswith(("shared", "unknown")) else b
+            if isinstance(e, ast.Name):
+                if e.id in local_fresh and depth < 3:
+                    rs = [origin(v, depth + 1) for v in local_fresh[e.id]]
+                    bad = [r for r in rs if r.startswith(("shared", "unknown"))]
+                    return bad[0] if bad else "fresh"
+                if e.id in module_names:
+                    return f"shared:{e.id}"
+                return "fresh" if e.id in ("schema", "new_schema") else f"unknown:{e.id}"
+            if isinstance(e, ast.Subscript) or isinstance(e, ast.Attribute):
+                base = e
+                while isinstance(base, (ast.Subscript, ast.Attribute, ast.Call)):
+                    base = base.value if not isinstance(base, ast.Call) else base.func
+                if isinstance(base, ast.Name) and base.id in module_names:
+                    return f"shared:{ast.unparse(e)[:50]}"
+                return f"unknown:{ast.unparse(e)[:50]}"
+            return f"unknown:{ast.unparse(e)[:50]}"
+
+        for st in walk_no_nested(fn):
+            if isinstance(st, ast.Return) and st.value is not None:
+                n += 1
+                o = origin(st.value)
+                if o.startswith("shared"):
+                    rep.violation("R20.7", f"{M_SCHEMA}::{fn.name}", f"{fn.name} returns a module-level schema object ({o[7:]})",
+                                  "callers decorate the schema they receive (default, description, $schema): a shared object leaks one field's default into every other use, "
+                                  "into definitions already collected and into later builds", loc=f"mashumaro/jsonschema/schema.py:{st.lineno}")
+                elif o.startswith("unknown"):
+                    rep.undecide("R20.7", f"{fn.name}: cannot tell where `{o[8:]}` comes from")
+                else:
+                    rep.ok("R20.7", f"{fn.name}:{'none' if o == 'none' else 'fresh object'} `{ast.unparse(st.value)[:50]}`", None, nontrivial=(o != "none"))
+    rep.floor("R20.7", 40)
+
 
 def _closure(repo: Repo, rep: Report) -> None:
     mi = repo.module(M_SCHEMA)
